@@ -3,14 +3,14 @@
 (* PREDICT for C04: every string up to MaxLen over an alphabet of          *)
 (* character classes that separates the cases of the lexer and of ts-rs's  *)
 (* quoting (letter, digit, _, $, space, -, ", ', \, *, /, non-ASCII        *)
-(* letter, line break), the empty string included.  Model verdict per string: the text *)
+(* letter, non-ASCII digit, line break), the empty string included.  Model verdict per string: the text *)
 (* ts-rs would write around it lexes to exactly one key token.             *)
 (***************************************************************************)
 EXTENDS Lexical, Json
 CONSTANT MaxLen
 Alphabet == { Ch("a", "letter"), Ch("1", "digit"), Ch("_", "letter"), Ch("$", "letter"), Ch(" ", "space"), Ch("-", "other"),
               Ch("\"", "punct"), Ch("'", "punct"), Ch("\\", "punct"), Ch("*", "punct"), Ch("/", "punct"), Ch("é", "letter"),
-              Ch("\n", "nl"), Ch("{", "punct"), Ch("}", "punct") }
+              Ch("\n", "nl"), Ch("{", "punct"), Ch("}", "punct"), Ch("٣", "cdigit") }
 VARIABLE s
 Init == s = <<>>
 Next == Len(s) < MaxLen /\ \E c \in Alphabet : s' = Append(s, c)
